@@ -150,7 +150,7 @@ def case_charfunc(dim, dtype, bw):
     return CaseResult(fails=fails, states=len(alpha), transitions=2, traces=2, outcome=f"{tag}:{dtype}:{bw}:{len(set(h.tolist()))}")
 
 
-def case_damping(dim, field_type, dtype, width, extra, pattern):
+def case_damping(dim, field_type, dtype, width, extra, pattern, origins=None):
     import sopht.numeric.eulerian_grid_ops as spne
 
     real_t = np.dtype(dtype).type
@@ -158,7 +158,7 @@ def case_damping(dim, field_type, dtype, width, extra, pattern):
     base = max(2 * width + 1, 3)
     shape = tuple(base + extra + (i if extra else 0) for i in range(dim))
     dx = 1.0 / shape[-1]
-    pos = position_field(shape, dx, real_t)
+    pos = position_field(shape, dx, real_t, origins)
     kw = dict(width=width, dx=real_t(dx), x_grid_field=pos[0], y_grid_field=pos[1], real_t=real_t)
     if dim == 3:
         kw["z_grid_field"] = pos[2]
@@ -343,6 +343,12 @@ def run(r) -> None:
                     for extra in ((0, 1, 3) if (w <= 3 or not quick or d == 2) else (0, 1)):
                         for pat in ("constant", "generic", "impulse-inner-edge", "impulse-in-zone", "impulse-outside"):
                             damp.append(dict(dim=d, field_type=ft, dtype=dt, width=w, extra=extra, pattern=pat))
+    # coordinate grids whose axes start at different coordinates
+    for d in (2, 3):
+        for ft in (("scalar",) if d == 2 else ("scalar", "vector")):
+            for w in (1, 2, 3):
+                for pat in ("constant", "generic", "impulse-inner-edge"):
+                    damp.append(dict(dim=d, field_type=ft, dtype="float64", width=w, extra=1, pattern=pat, origins=[-0.37, 1.21, 0.043][:d]))
     r.run_cases("boundary-damping", "damping", damp, chunksize=8)
     orders = (1, 2, 3) if quick else (1, 2, 3, 4)
     r.run_cases("filter-symbol", "filter_symbol", [dict(ftype=t, order=o, field_type=ft) for t in ("multiplicative", "convolution") for o in orders for ft in ("scalar", "vector")])
